@@ -546,15 +546,22 @@ class Interpolation(object):
                 num_iter += 1
                 yp = self.derivative(x)
                 # If derivative is too small, switch to linear interpolation
+                # (bisecting every other time, so that the bracket shrinks)
                 if abs(yp) < 1e-3:
-                    x = (xl * yh - xh * yl) / (yh - yl)
+                    if num_iter % 2 == 0:
+                        x = (xl + xh) / 2.0
+                    else:
+                        x = (xl * yh - xh * yl) / (yh - yl)
                     y = self.__call__(x)
                 else:
                     x = x - y / yp
                     # Check if x is within limits
                     if x < xl or x > xh:
-                        # Switch to linear interpolation
-                        x = (xl * yh - xh * yl) / (yh - yl)
+                        # Switch to linear interpolation or bisection
+                        if num_iter % 2 == 0:
+                            x = (xl + xh) / 2.0
+                        else:
+                            x = (xl * yh - xh * yl) / (yh - yl)
                         y = self.__call__(x)
                     else:
                         y = self.__call__(x)
